@@ -116,6 +116,8 @@ type pathState struct {
 	lazyDefs     []*smt.Term // exact definitions of abstracted operations
 	lazyDone     int
 	fbits        map[*smt.Term]*smt.Term
+	hashBits     int
+	hashAllowed  []uint64
 }
 
 type undoRec struct {
@@ -189,12 +191,12 @@ func (i *interpreter) branch(c *smt.Term) bool {
 		return d.taken
 	}
 	nc := i.tb.Not(c)
-	rT := i.sol.Check(c)
+	rT := i.solCheck(c)
 	var rF smt.Result
 	if rT == smt.Unsat {
 		rF = smt.Sat // unless the path itself is dead, which later queries reveal
 	} else {
-		rF = i.sol.Check(nc)
+		rF = i.solCheck(nc)
 	}
 	if rT == smt.Unknown || rF == smt.Unknown {
 		i.res.Inconclusive = append(i.res.Inconclusive, "feasibility unknown at "+i.curPosString())
@@ -264,7 +266,7 @@ func (i *interpreter) concretize(t *smt.Term) uint64 {
 		i.res.Inconclusive = append(i.res.Inconclusive, fmt.Sprintf("concretisation fan-out > %d at %s", i.lim.MaxFan, i.curPosString()))
 		panic(pathEnd{"fanout"})
 	}
-	r := i.sol.Check()
+	r := i.solCheck()
 	if r == smt.Unsat {
 		panic(pathEnd{"dead"})
 	}
@@ -351,12 +353,10 @@ func (i *interpreter) floatBits(v value) value {
 // variable constrained by to_fp is used.
 func (i *interpreter) floatBitsTerm(t *smt.Term) *smt.Term {
 	b := i.tb
-	switch t.Op {
-	case smt.OConst:
-		return b.BVConst(t.V, 64)
-	case smt.OFFromBits:
-		return t.Args[0]
-	case smt.OIte:
+	if bv, ok := b.BitsOf(t); ok {
+		return bv
+	}
+	if t.Op == smt.OIte {
 		return b.Ite(t.Args[0], i.floatBitsTerm(t.Args[1]), i.floatBitsTerm(t.Args[2]))
 	}
 	if i.ps.fbits == nil {
@@ -563,9 +563,9 @@ func (i *interpreter) check(cond value, label string) {
 		}
 		return
 	}
-	r := i.sol.Check(b.Not(c))
+	r := i.solCheck(b.Not(c))
 	if r == smt.Sat && i.refine() {
-		r = i.sol.Check(b.Not(c))
+		r = i.solCheck(b.Not(c))
 	}
 	switch r {
 	case smt.Unsat:
@@ -620,7 +620,7 @@ func (i *interpreter) reach(label string) {
 		i.res.Reached[label]++
 		return
 	}
-	if i.sol.Check() == smt.Sat {
+	if i.solCheck() == smt.Sat {
 		i.res.Reached[label]++
 	}
 }
@@ -771,9 +771,9 @@ func (i *interpreter) onPanic(msg string) {
 	if i.violated[label] >= i.maxViolPerLabel {
 		return
 	}
-	r := i.sol.Check()
+	r := i.solCheck()
 	if r == smt.Sat && i.refine() {
-		r = i.sol.Check()
+		r = i.solCheck()
 	}
 	switch r {
 	case smt.Sat:
@@ -807,3 +807,13 @@ func sortedKeys(m map[string]bool) []string {
 }
 
 var _ = os.Stderr
+
+// solCheck is sol.Check with the watchdog: a dead solver ends the path as inconclusive.
+func (i *interpreter) solCheck(assume ...*smt.Term) smt.Result {
+	r := i.sol.Check(assume...)
+	if i.sol.Dead {
+		i.res.Inconclusive = append(i.res.Inconclusive, "solver watchdog fired (query exceeded the time cap) at "+i.curPosString())
+		panic(pathEnd{"solver-dead"})
+	}
+	return r
+}
